@@ -107,6 +107,8 @@ macro_rules! prime_field_machine {
             type T = $T;
             let el = <T>::ENC_LEN;
             let mut regs: Vec<T> = vec![<T>::ZERO, <T>::ONE, <T>::ZERO - <T>::ONE];
+            out.ev(format_args!("{} MINUS_ONE is -1: {:#x}", $name, <T>::MINUS_ONE.equals(<T>::ZERO - <T>::ONE)));
+            regs.push(<T>::MINUS_ONE);
             // operand constructors
             let ncons = 3 + t.usize(4);
             for _ in 0..ncons {
@@ -126,7 +128,61 @@ macro_rules! prime_field_machine {
                     }
                     7 => {
                         if $w64 {
-                            let raw: Vec<u64> = (0..$raw).map(|_| word(t, rng)).collect();
+                            let mut raw: Vec<u64> = (0..$raw).map(|_| word(t, rng)).collect();
+                            if t.chance(1, 3) {
+                                // whole-value patterns that independent limbs practically never form: p-1+k, 2p-2+k,
+                                // 2^(64N)-1-k, 2^(64N-1)+/-k (raw-word constructors admit values >= p)
+                                out.probe("probe.apitrace.raw_words_near_modulus");
+                                let m1 = (<T>::ZERO - <T>::ONE).encode();
+                                let mut w: Vec<u64> = (0..$raw).map(|i| {
+                                    let mut b = [0u8; 8];
+                                    let lo = i * 8;
+                                    if lo < m1.len() {
+                                        let hi = (lo + 8).min(m1.len());
+                                        b[..hi - lo].copy_from_slice(&m1[lo..hi]);
+                                    }
+                                    u64::from_le_bytes(b)
+                                }).collect();
+                                let k = t.choose(40_000);
+                                match t.usize(5) {
+                                    0 => {}
+                                    1 => {
+                                        // double (2p - 2), dropping the carry out of the top word
+                                        let mut cy = 0u64;
+                                        for x in w.iter_mut() {
+                                            let n = (*x << 1) | cy;
+                                            cy = *x >> 63;
+                                            *x = n;
+                                        }
+                                    }
+                                    2 => w.iter_mut().for_each(|x| *x = u64::MAX),
+                                    3 => {
+                                        w.iter_mut().for_each(|x| *x = 0);
+                                        *w.last_mut().unwrap() = 1u64 << 63;
+                                    }
+                                    _ => {
+                                        w.iter_mut().for_each(|x| *x = u64::MAX);
+                                        *w.last_mut().unwrap() = u64::MAX >> 1;
+                                    }
+                                }
+                                // +k or -k with carry / borrow through the words
+                                if t.chance(1, 2) {
+                                    let mut cy = k;
+                                    for x in w.iter_mut() {
+                                        let (s, o) = x.overflowing_add(cy);
+                                        *x = s;
+                                        cy = o as u64;
+                                    }
+                                } else {
+                                    let mut bw = k;
+                                    for x in w.iter_mut() {
+                                        let (s, o) = x.overflowing_sub(bw);
+                                        *x = s;
+                                        bw = o as u64;
+                                    }
+                                }
+                                raw = w;
+                            }
                             wcons!($T, $raw, raw)
                         } else {
                             <T>::decode_reduce(&bytes_biased(t, rng, el))
@@ -179,7 +235,7 @@ macro_rules! prime_field_machine {
                     9 => a.mul16(),
                     10 => a.mul32(),
                     11 => {
-                        let n = t.usize(6) as u32;
+                        let n = if t.chance(1, 10) { [31u32, 32, 33, 64, 255][t.usize(5)] } else { t.usize(6) as u32 };
                         a.xsquare(n)
                     }
                     12 => {
@@ -241,6 +297,36 @@ macro_rules! prime_field_machine {
                             }
                         }
                     }
+                    21 if t.chance(1, 6) => {
+                        // slice lengths around the internal batch size (200), zeros at the batch edges, all zeros
+                        out.probe("probe.apitrace.batch_invert_long_slice");
+                        let len = [0usize, 1, 2, 199, 200, 201, 400, 401][t.usize(8)];
+                        let zeros = t.usize(4);
+                        let mut v: Vec<T> = (0..len).map(|i| regs[i % regs.len()] + <T>::from_u32(i as u32)).collect();
+                        for (i, x) in v.iter_mut().enumerate() {
+                            let z = match zeros {
+                                0 => false,
+                                1 => i == 0 || i == 199 || i == 200 || i + 1 == len,
+                                2 => i % 200 == 0,
+                                _ => true,
+                            };
+                            if z {
+                                *x = <T>::ZERO;
+                            }
+                        }
+                        let before = v.clone();
+                        <T>::batch_invert(&mut v);
+                        // one folded line: every element must be the inverse (0 for 0) of what it was
+                        let mut ok = 0xFFFF_FFFFu32;
+                        let mut acc = <T>::ZERO;
+                        for (x, y) in before.iter().zip(v.iter()) {
+                            let p = *x * *y;
+                            ok &= p.equals(<T>::ONE) | (x.iszero() & y.iszero());
+                            acc = acc * <T>::from_u32(3) + *y;
+                        }
+                        out.ev(format_args!("{} batch_invert len {} zeros-mode {} all-inverses {:#x} fold {}", $name, len, zeros, ok, hex(&acc.encode())));
+                        acc
+                    }
                     21 => {
                         let mut v = vec![a, b, a * b, a + <T>::ONE, <T>::ZERO];
                         <T>::batch_invert(&mut v);
@@ -248,6 +334,24 @@ macro_rules! prime_field_machine {
                             out.ev(format_args!("{} batch_invert -> {}", $name, hex(&x.encode())));
                         }
                         v[0]
+                    }
+                    22 if t.chance(1, 3) => {
+                        // by-reference operators and compound assignments (separate trait impls)
+                        out.probe("probe.apitrace.reference_and_assign_operators");
+                        let mut r = a;
+                        r += &b;
+                        r -= b;
+                        r *= &a;
+                        r /= &b;
+                        r += a;
+                        r -= &b;
+                        r *= b;
+                        r /= a;
+                        let s = &r + &a;
+                        let u2 = &s - &b;
+                        let w = &u2 * &a;
+                        let z = &w / &b;
+                        -&z + a - &b + (&a * b) + (a / &b)
                     }
                     22 => a * a * a - b * b,
                     _ => (a + b) * (a - b),
@@ -316,6 +420,10 @@ macro_rules! extra_ops {
         let (w3, w2, w1, w0) = (word($t, $rng), word($t, $rng), word($t, $rng), word($t, $rng));
         let v = <$T>::from_w64be(w3, w2, w1, w0);
         let c = <$T>::from_w64le(w0, w1, w2, w3);
+        // the const constructors are separate code (compile-time arithmetic)
+        let k1 = <$T>::w64le(w0, w1, w2, w3);
+        let k2 = <$T>::w64be(w3, w2, w1, w0);
+        $out.ev(format_args!("{} const constructors agree: {:#x} {:#x}", $name, v.equals(k1), v.equals(k2)));
         $out.ev(format_args!("{} from_w64be({:#x},{:#x},{:#x},{:#x}) -> {} same_as_le {:#x}", $name, w3, w2, w1, w0, hex(&v.encode()), v.equals(c)));
         v
     }};
@@ -328,6 +436,9 @@ macro_rules! extra_ops {
         let mut wl = w;
         wl.reverse();
         let c = <$T>::from_w64le(wl);
+        let k1 = <$T>::w64le(wl);
+        let k2 = <$T>::w64be(w);
+        $out.ev(format_args!("{} const constructors agree: {:#x} {:#x}", $name, v.equals(k1), v.equals(k2)));
         $out.ev(format_args!("{} from_w64be({:x?}) -> {} same_as_le {:#x}", $name, w, hex(&v.encode()), v.equals(c)));
         v
     }};
@@ -572,6 +683,25 @@ macro_rules! pex {
             }
         }
     }};
+    (@init ed25519, $pts:expr) => {{
+        // points of order 2, 4, 8 and mixed order (generator + torsion): the group law must cope with them
+        for e in <crate::world::suite::Ed25519 as crate::world::suite::Suite>::bad_points() {
+            if let Some(p) = Point::decode(&e) {
+                $pts.push(p);
+                $pts.push(p + Point::BASE);
+            }
+        }
+        $pts.truncate(10);
+    }};
+    (@init ed448, $pts:expr) => {{
+        for e in <crate::world::suite::Ed448 as crate::world::suite::Suite>::bad_points() {
+            if let Some(p) = Point::decode(&e) {
+                $pts.push(p);
+                $pts.push(p + Point::BASE);
+            }
+        }
+        $pts.truncate(10);
+    }};
     (@init $other:tt, $pts:expr) => {{}};
     (@proj $F:ty, $name:expr, $p:expr, $t:expr, $rng:expr, $out:expr) => {{
         // projective coordinates are one of several admissible representations: only what comes back through
@@ -727,7 +857,7 @@ macro_rules! point_machine {
                     4 => p * s,
                     5 => Point::mulgen(&s),
                     6 => {
-                        let n = t.usize(5) as u32;
+                        let n = if t.chance(1, 10) { [31u32, 32, 33, 64, 255][t.usize(5)] } else { t.usize(5) as u32 };
                         p.xdouble(n)
                     }
                     7 => {
@@ -789,7 +919,12 @@ fn m_gfb(t: &mut Tape, rng: &mut SimRng, out: &mut RunOut, nops: usize) {
         out.ev(format_args!("GFb127 decode_ct({}) -> {:#x} {}", hex(&b), st, hex(&v.encode())));
         r127.push(v);
         let l = if t.chance(3, 4) { 32 } else { len_biased(t, 32) };
-        let b = bytes_biased(t, rng, l);
+        let mut b = bytes_biased(t, rng, l);
+        if b.len() == 32 && t.chance(1, 2) {
+            // canonical halves (bit 127 of each clear): otherwise three quarters of the operands fail to decode
+            b[15] &= 0x7F;
+            b[31] &= 0x7F;
+        }
         let (v, st) = GFb254::decode_ct(&b);
         status!(out, "GFb254.decode_ct", st);
         let d = GFb254::decode(&b);
@@ -801,8 +936,64 @@ fn m_gfb(t: &mut Tape, rng: &mut SimRng, out: &mut RunOut, nops: usize) {
         let b = r254[t.usize(r254.len())];
         let x = r127[t.usize(r127.len())];
         let y = r127[t.usize(r127.len())];
-        let op = t.usize(26);
+        let op = t.usize(28);
         match op {
+            26 => {
+                // GF(2^127): conditional operations, repeated squaring, predicates, strict decoding, - and unary -
+                out.probe("probe.apitrace.gfb_conditional_and_inplace");
+                let ctl = if t.chance(1, 2) { 0xFFFF_FFFFu32 } else { 0 };
+                let mut r = x;
+                r.set_cond(&y, ctl);
+                let s = GFb127::select(&x, &y, ctl);
+                let (mut p1, mut p2) = (x, y);
+                GFb127::cswap(&mut p1, &mut p2, ctl);
+                let xs = x.xsquare(t.usize(6) as u32);
+                let (e, z) = (x.equals(y), x.iszero());
+                status!(out, "GFb127.equals", e);
+                status!(out, "GFb127.iszero", z);
+                let bl = if t.chance(3, 4) { 16 } else { len_biased(t, 16) };
+                let bb = bytes_biased(t, rng, bl);
+                let d = GFb127::decode(&bb);
+                let w = (x - y) + (-x);
+                out.ev(format_args!("GFb127 cond {} select {} cswap {} {} xsquare {} equals {:#x} iszero {:#x} decode({}) {:?} sub/neg {}",
+                    hex(&r.encode()), hex(&s.encode()), hex(&p1.encode()), hex(&p2.encode()), hex(&xs.encode()), e, z, hex(&bb), d.map(|v| hex(&v.encode())), hex(&w.encode())));
+                r127.push(xs);
+            }
+            27 => {
+                // in-place forms of both binary fields
+                out.probe("probe.apitrace.gfb_conditional_and_inplace");
+                let ctl = if t.chance(1, 2) { 0xFFFF_FFFFu32 } else { 0 };
+                let mut r = a;
+                r.set_cond(&b, ctl);
+                let (mut p1, mut p2) = (a, b);
+                GFb254::cswap(&mut p1, &mut p2, ctl);
+                let mut v = -a;
+                match t.usize(9) {
+                    0 => v.set_mul_sb(),
+                    1 => v.set_mul_b(),
+                    2 => v.set_div_z(),
+                    3 => v.set_div_z2(),
+                    4 => v.set_sqrt(),
+                    5 => v.set_mul_u(),
+                    6 => v.set_mul_u1(),
+                    7 => v.set_mul_b127(&x),
+                    _ => { v.set_invert(); v.set_square(); }
+                }
+                let mut g = x;
+                match t.usize(8) {
+                    0 => g.set_mul_sb(),
+                    1 => g.set_mul_b(),
+                    2 => g.set_div_z(),
+                    3 => g.set_div_z2(),
+                    4 => g.set_sqrt(),
+                    5 => g.set_halftrace(),
+                    6 => g.set_invert(),
+                    _ => g.set_square(),
+                }
+                out.ev(format_args!("GFb254 cond {} cswap {} {} inplace {} ; GFb127 inplace {}", hex(&r.encode()), hex(&p1.encode()), hex(&p2.encode()), hex(&v.encode()), hex(&g.encode())));
+                r254.push(v);
+                r127.push(g);
+            }
             22 => {
                 // GF(2^254) operations specific to the GLS254 formulas
                 let r = match t.usize(4) {
@@ -1003,6 +1194,9 @@ fn m_zu(t: &mut Tape, rng: &mut SimRng, out: &mut RunOut, nops: usize) {
             4 => {
                 out.ev(format_args!("Zu256 add_rsh224 {:#x} borrow {}", p.add_rsh224(&q), p.borrow(&q)));
                 show128(out, "trunc128", p.trunc128());
+                // the middle bits too: (p * 2^97) >> 225 is p >> 128 (layout-independent accessors only)
+                let hi = p.mul256x128(&Zu128::w64le(0, 1u64 << 33)).trunc_and_rsh_cc(0, 225).1;
+                show128(out, "bits128..255", hi);
             }
             _ => {
                 let mut z: Zu384 = p.mul256x128(&a);
